@@ -1,61 +1,6 @@
 // c19: correspondence runner and property oracle for C19 (session resumption).
 package main
 
-import (
-	"fmt"
-	"os"
-	"time"
+import "verif/harness/vh"
 
-	tls "github.com/refraction-networking/utls"
-	"verif/harness/vh"
-)
-
-func main() {
-	if len(os.Args) > 1 && os.Args[1] == "probe" {
-		probe()
-		return
-	}
-	vh.Main(map[string]vh.Suite{"C19": {"Corr.C19Corr", run}})
-}
-
-func run(c *vh.Ctx) {}
-
-func probe() {
-	pk := newPKI()
-	var ps []parrot
-	for _, e := range predefined {
-		ps = append(ps, classify(e.n, e.id))
-	}
-	for i := range ps {
-		p := &ps[i]
-		fmt.Printf("%-28s ticket=%v psk=%v ems=%v max13=%v min=%x shares=%v groups=%v err=%s\n", p.Name, p.HasTicket, p.HasPSK, p.HasEMS, p.Max13, p.Min, p.Shares, p.Groups, p.SpecErr)
-	}
-	for i := range ps {
-		p := &ps[i]
-		for k := 0; k < nSrvKinds; k++ {
-			for _, omit := range []bool{false, true} {
-				if omit && !p.HasPSK {
-					continue
-				}
-				w, err := newWorld(pk, 1)
-				if err != nil {
-					panic(err)
-				}
-				line := fmt.Sprintf("%-28s %-8s omit=%v:", p.Name, srvKindName[k], omit)
-				for j := 0; j < 3; j++ {
-					o := w.connect(connPlan{P: p, Name: 0, Srv: k, OmitEmpty: omit, Advance: time.Hour})
-					ph := ""
-					if len(o.Srv.hellos) > 0 {
-						h := o.Srv.hellos[0]
-						ph = fmt.Sprintf("tkt=%d psk=%v/%d last=%v ems=%v nh=%d", len(h.Ticket), h.HasPSK, len(h.Identities), h.PSKLast, h.HasEMS, len(o.Srv.hellos))
-					}
-					a, okA := o.After["a.test"]
-					line += fmt.Sprintf("\n    [%d] cli(res=%v err=%q panic=%q) srv(res=%v err=%q) hello(%s) cache(%v v=%x ems=%v) ev=%v", j, o.CliResumed, o.CliErr, o.CliPanic, o.Srv.resumed, o.Srv.err, ph, okA, a.Version, a.EMS, o.Events)
-				}
-				fmt.Println(line)
-				w.close()
-			}
-		}
-	}
-	_ = tls.VersionTLS12
-}
+func main() { vh.Main(map[string]vh.Suite{"C19": {"Corr.C19Corr", run}}) }
